@@ -7,7 +7,7 @@ VERIF = os.path.dirname(HERE)
 sys.path.insert(0, HERE)
 sys.setrecursionlimit(20000)
 REPO = os.environ.get('ATSA_REPO', '/repo')
-CACHE = os.path.join(VERIF, '.cache')
+CACHE = os.environ.get('ATSA_CACHE_DIR') or os.path.join(VERIF, '.cache')      # per-worker caches for the parallel matrix / recheck tools
 
 def tree_hash(profile):
     h = hashlib.sha256()
